@@ -1,8 +1,10 @@
-CONSTANTS NT = 2 R = 2 Deviations = {}
+CONSTANTS NT = 2 R = 2 NI = 1 Deviations = {}
 SPECIFICATION Spec
 INVARIANT CountsAgree
 INVARIANT PassOncePerIteration
 INVARIANT BadCarriesIdentity
+INVARIANT ImportFailuresReported
+INVARIANT NothingUnselected
 INVARIANT WellFormedStrings
 PROPERTY Terminates
 CHECK_DEADLOCK FALSE
